@@ -19,7 +19,7 @@ import os
 import vlib
 
 ALL_CN = ("no", "sec", "half", "insec")
-KEEP = {"Cfg", "Msg", "Quar", "Lookup", "SrvConn", "SrvData", "Ret", "End"}
+KEEP = {"Cfg", "Msg", "Quar", "Lookup", "StsLookup", "SrvConn", "SrvData", "Ret", "End"}
 
 CFG = """SPECIFICATION %(spec)s
 CONSTANTS
@@ -37,6 +37,7 @@ CONSTANTS
   SlowSet = {%(slow)s}
   CnSet = {%(cn)s}
   QuitSet = {%(quit)s}
+  ResSet <- %(res)s
   Devs = {%(devs)s}
   Gen = %(gen)s
 %(tail)s
@@ -53,11 +54,12 @@ def q(xs):
 
 def cfg(spec="Spec", polsets="AllPolSets", mintls=(0, 1, 2), minmx=(0, 1, 2), override=("TRUE", "FALSE"),
         sts=("none", "testing", "enforce"), stlscert="AllStlsCert", tlsa="AllTlsa", nmx=(1,), kinds="Kinds4",
-        maxmsgs=3, dnsfail=True, slow=("FALSE",), cn=("no",), quit=("bye",), devs=(), gen=False, tail=MC_TAIL):
+        maxmsgs=3, dnsfail=True, slow=("FALSE",), cn=("no",), quit=("bye",), res="LocalRes", devs=(), gen=False,
+        tail=MC_TAIL):
     return CFG % dict(spec=spec, polsets=polsets, mintls=", ".join(map(str, mintls)),
                       minmx=", ".join(map(str, minmx)), override=", ".join(override), sts=q(sts),
                       stlscert=stlscert, tlsa=tlsa, nmx=", ".join(map(str, nmx)), kinds=kinds,
-                      maxmsgs=maxmsgs, dnsfail="TRUE" if dnsfail else "FALSE", slow=", ".join(slow), cn=q(cn), quit=q(quit), devs=q(devs),
+                      maxmsgs=maxmsgs, dnsfail="TRUE" if dnsfail else "FALSE", slow=", ".join(slow), cn=q(cn), quit=q(quit), res=res, devs=q(devs),
                       gen="TRUE" if gen else "FALSE", tail=tail)
 
 
@@ -80,6 +82,8 @@ def dedup(behs):
     seen, out = set(), []
     for b in behs:
         b["cfg"]["pols"] = sorted(b["cfg"]["pols"])
+        for r in b["cfg"].get("res", []):
+            r["fail"] = sorted(r["fail"])
         key = json.dumps([b["cfg"], b["msgs"]], sort_keys=True)
         if key not in seen:
             seen.add(key)
@@ -89,10 +93,32 @@ def dedup(behs):
     return out
 
 
+def cfg_key(b):
+    """The configuration without the per-MX facts that do not enter the policies' own decisions."""
+    c = b["cfg"]
+    return json.dumps([c["pols"], c["minTLS"], c["minMX"], c["sts"], c["adMX"], c.get("res"),
+                       [f["stsMatch"] for f in c["mx"]]], sort_keys=True)
+
+
+def per_group(rng, behs, key, n):
+    """Quick tier: n behaviours of every group (complete in thorough)."""
+    groups = {}
+    for b in behs:
+        groups.setdefault(key(b), []).append(b)
+    out = []
+    for _, v in sorted(groups.items()):
+        out += vlib.sample(rng, v, n) if len(v) > n else v
+    return out
+
+
+PER_GROUP = {"gen-res": (cfg_key, 2), "gen-late": (cfg_key, 5)}
+
+
 def nontrivial(b):
     c = b["cfg"]
-    return bool(c["pols"]) and (any(m["reqtls"] or m["tlsno"] or m["quar"] or m.get("mailfail") or m.get("qlate")
-                                    for m in b["msgs"]) or
+    return bool(c["pols"]) and (any(m["reqtls"] or m["tlsno"] or m["quar"] or m.get("mailfail") or m.get("qlate") or
+                                    m.get("late", "no") != "no" for m in b["msgs"]) or
+                                len(c.get("res", [])) > 1 or any(not r["loop"] for r in c.get("res", [])) or
                                 any(f["stls"] != "offered" or f["cert"] != "valid" or
                                     f["tlsa"] not in ("insecure", "none") or f.get("cn", "no") != "no" for f in c["mx"]))
 
@@ -130,6 +156,11 @@ def run(ctx, replay):
         runs.append(("mc-cname", cfg(polsets="DaneOnly", mintls=(0, 1, 2), minmx=(0,), override=("TRUE",),
                                      stlscert="QuickStlsCert", tlsa="AllTlsa" if thorough else "CnameTlsa", nmx=(1,),
                                      kinds="Kinds3", maxmsgs=2, dnsfail=False, cn=ALL_CN)))
+        # the resolver list of the DNSSEC-aware stub resolver (loopback / not, a fault per resolver and query
+        # class) x the policies whose verdict rests on AD flags
+        runs.append(("mc-res", cfg(polsets="AdPolSets", mintls=(0, 2), minmx=(0, 2), override=("TRUE",),
+                                   stlscert="AdStlsCert", tlsa="AllTlsa" if thorough else "AdTlsa", nmx=(1,),
+                                   kinds="KindsRes", maxmsgs=2, dnsfail=False, res="AllRes")))
         states = trans = depth = 0
         for name, text in runs:
             r = ctx.tlc_expect_ok("Remote", None, name=name, workers=w, timeout=3000, cfg_text=text, heap="5g")
@@ -157,6 +188,14 @@ def run(ctx, replay):
         if rb["invariant"] != "NoViolation":
             raise vlib.Infra("as-is model (TlsaFutureShared) no longer violates NoViolation: the invariant is vacuous "
                              "(%s %s)" % (rb["invariant"], rb["error"]))
+        rc = ctx.tlc("Remote", None, name="asis3", workers=2, timeout=600, heap="2g",
+                     cfg_text=cfg(polsets="AdPolSets", mintls=(0,), minmx=(2,), override=("TRUE",),
+                                  stlscert="TwoStlsCert", tlsa="QuickTlsa", nmx=(1,), kinds="Kinds1", maxmsgs=1,
+                                  dnsfail=False, res="FallbackRes", devs=("AdAnyResolver",),
+                                  tail="VIEW View\nINVARIANTS NoViolation\n"))
+        if rc["invariant"] != "NoViolation":
+            raise vlib.Infra("as-is model (AdAnyResolver) no longer violates NoViolation: the resolver dimension is "
+                             "vacuous (%s %s)" % (rc["invariant"], rc["error"]))
         ctx.cov["asis_counterexample_found"] = True
 
     # ---- the other direction: the repository's own tests of the package, hooks on -------------------
@@ -199,6 +238,16 @@ def run(ctx, replay):
                  ("gen-slow", cfg(polsets="DaneStsLocal", mintls=(0,), minmx=(1,), override=("TRUE",), sts=("testing",),
                                   stlscert="TwoStlsCert", tlsa="QuickTlsa", nmx=(2,), kinds="Kinds1", maxmsgs=1,
                                   dnsfail=False, slow=("TRUE",), gen=True, tail=GEN_TAIL))]
+        # resolver lists (the answering server loopback or not, a fault per resolver and query class) x the
+        # policies that go by AD flags; quick: every (resolver list, policy set, minimum levels, AD) with a
+        # sample of the MX facts and message kinds
+        focus += [("gen-res", cfg(polsets="AdPolSets", mintls=(0, 2), minmx=(0, 2), override=("TRUE",),
+                                  stlscert="AdStlsCert", tlsa="AdTlsa", nmx=(1,), kinds="KindsRes", maxmsgs=1,
+                                  dnsfail=False, res="AllRes" if thorough else "QuickRes", gen=True, tail=GEN_TAIL)),
+                  # an earlier recipient domain of the same message answers its MTA-STS lookup late
+                  ("gen-late", cfg(polsets="StsSets", mintls=(0,), minmx=(0, 1), override=("TRUE",),
+                                   stlscert="TwoStlsCert", nmx=(1,), kinds="KindsLateFocus", maxmsgs=2, dnsfail=False,
+                                   gen=True, tail=GEN_TAIL))]
         # every CNAME situation x TLSA outcome at the canonical and at the original name
         focus += [("gen-cname", cfg(polsets="DaneOnly", mintls=(0,), minmx=(0,), override=("TRUE",),
                                     stlscert="TwoStlsCert", tlsa="AllTlsa" if thorough else "CnameTlsa", nmx=(1,),
@@ -216,7 +265,7 @@ def run(ctx, replay):
                                cfg_text=cfg(nmx=(1,), kinds="KindsAll", tlsa="SmallTlsa", cn=ALL_CN, gen=True,
                                             tail=GEN_TAIL))),
                  ("sim1b", dict(workers=1, timeout=1800, simulate=n1 // 2, depth=60, heap="4g",
-                                cfg_text=cfg(nmx=(1,), kinds="KindsAll", gen=True, tail=GEN_TAIL))),
+                                cfg_text=cfg(nmx=(1,), kinds="KindsSim", res="QuickRes", gen=True, tail=GEN_TAIL))),
                  ("sim2", dict(workers=1, timeout=1800, simulate=n2, depth=60, heap="4g",
                                cfg_text=cfg(nmx=(2,), stlscert="SmallStlsCert", tlsa="SmallTlsa", kinds="Kinds4",
                                             dnsfail=False, slow=("TRUE", "FALSE"), gen=True, tail=GEN_TAIL)))]
@@ -233,6 +282,8 @@ def run(ctx, replay):
                 ctx.cov["exhaustive_" + name] = len(got)
             if name == "gen-all1" and len(got) > 15000:
                 got = vlib.sample(ctx.rng, got, 15000)     # replayed sample of the complete enumeration
+            if name in PER_GROUP and not thorough:
+                got = per_group(ctx.rng, got, *PER_GROUP[name])
             behs += got
         behs = dedup(behs)
         if not behs:
@@ -319,8 +370,10 @@ def run(ctx, replay):
     ctx.cov["traces_validated_against_impl"] += hook_ok
     ctx.cov["rule"] = ("behaviours = (configuration, per-MX facts, message history) of Remote.tla printed by TLC: "
                        "exhaustive over the local_policy/override/cache sub-space, -simulate over the full space "
-                       "(1 MX) and the reduced 2-MX space, de-duplicated; non-trivial = at least one policy enabled "
-                       "and a non-default message flag or MX fact")
+                       "(1 MX) and the reduced 2-MX space, de-duplicated; resolver lists x AD-dependent policies and "
+                       "late MTA-STS answers: every configuration with a sample of MX facts / histories in quick, "
+                       "complete in thorough; non-trivial = at least one policy enabled and a non-default message "
+                       "flag, MX fact or resolver list")
     ctx.cov["violated_predicates"] = preds
     for b in behs[:3]:
         ctx.cov["samples"].append({"behaviour": b, "trace": [e for e in by_t.get(b["id"], [])][:30]})
@@ -329,7 +382,10 @@ def run(ctx, replay):
         "MX servers are scripted raw SMTP servers on loopback TCP; what 'the connection' was is what the server saw",
         "DNS (MX, A, TLSA, AD bit, SERVFAIL) is a go-mockdns server on loopback UDP; MTA-STS fetch is injected",
         "'enc-auth' = handshake completed on a certificate valid for the MX name under the CA the client trusts",
-        "one recipient domain per message (the statement's quantifier); MAIL/RCPT/DATA replies are positive",
+        "one recipient domain per message is judged (the statement's quantifier); 'pre' and 'late' messages have an "
+        "earlier recipient in another domain (delivered / refused); MAIL/RCPT/DATA replies are positive",
+        "resolver lists: one scripted DNS server per entry on 127.0.0.x / the machine's first non-loopback IPv4 "
+        "address (0.0.0.0 when it has none), same port, same zone data",
         "a harness-side time-out is exit 2, never a violation",
         "TLC 1.8.0, CommunityModules Json reader",
     ]
@@ -345,7 +401,10 @@ META = {
             "override switch, message flags (REQUIRETLS, TLS-Required: No, quarantine) and per-MX facts (STARTTLS "
             "offered/stripped/refused/failing, certificate class, MTA-STS mode x match, TLSA outcome, AD bit) for 1 MX "
             "and a reduced fact space for 2 MX, with histories of up to 3 messages sharing the connection cache, and "
-            "checks DataSent => PolicyOK and DiscoveryFailure => deferred in every state; the same predicates are "
+            "checks DataSent => PolicyOK and DiscoveryFailure => deferred in every state; further environment "
+            "dimensions: the resolver list of the DNSSEC-aware stub resolver (loopback or not, a fault per resolver and "
+            "query class: an AD flag counts only when the answering server is a loopback one) and a message whose "
+            "earlier recipient domain fails its MX lookup and answers its MTA-STS lookup late; the same predicates are "
             "evaluated by TLC over traces recorded from the real remote.Target driven with TLC-generated behaviours.",
     "note": "Scripted MX servers (loopback TCP, crypto/x509 certificates), go-mockdns with AD control, injected "
             "MTA-STS fetch; the predicate is over what the servers saw; trusted: TLC, the harness, Go toolchain.",
